@@ -11,10 +11,12 @@ EXTENDS MPOptions, Json
 CONSTANTS PosDomain,     \* candidate position numbers
           MaxFlags,      \* maximal number of criterion flags
           MinFlags,
-          ExtraMode      \* "none" | "some": optional extra arguments
+          ExtraMode,     \* "none" | "some": optional extra arguments
+          Spellings      \* subset of BOOLEAN: FALSE = short option name, TRUE = long option name
 
-VARIABLES flags, twopl, stab, stage
-ovars == <<flags, twopl, stab, stage>>
+VARIABLES flags, twopl, stab, stage,
+          names          \* presentation: the spelling of each criterion flag (same index as flags) and of the fixed options
+ovars == <<flags, twopl, stab, stage, names>>
 
 ExtrasFor(c) ==
     IF ExtraMode = "none" THEN {<<>>}
@@ -23,18 +25,20 @@ ExtrasFor(c) ==
            [] c \in {"mincost", "minsqcost", "mincostlsb"} -> {<<>>, <<1>>, <<2, 1>>, <<10, 1>>, <<1, 11>>}
            [] OTHER -> {<<>>}
 
-Init == flags = <<>> /\ twopl = FALSE /\ stab = FALSE /\ stage = "flags"
+Init == flags = <<>> /\ twopl = FALSE /\ stab = FALSE /\ stage = "flags" /\ names = [flags |-> <<>>, fixed |-> FALSE]
 
 AddFlag ==
     /\ stage = "flags" /\ Len(flags) < MaxFlags
     /\ \E c \in CritNames : \E pos \in PosDomain : \E x \in ExtrasFor(c) :
          /\ \A i \in DOMAIN flags : flags[i].c # c
          /\ flags' = Append(flags, [c |-> c, pos |-> pos, x |-> x])
+         /\ \E lg \in Spellings : names' = [names EXCEPT !.flags = Append(@, SolverOptName(c, lg))]
     /\ UNCHANGED <<twopl, stab, stage>>
 Finish ==
     /\ stage = "flags" /\ Len(flags) >= MinFlags
     /\ \E t \in BOOLEAN, st \in BOOLEAN : twopl' = t /\ stab' = st
     /\ stage' = "done"
+    /\ \E lg \in Spellings : names' = [names EXCEPT !.fixed = lg]
     /\ UNCHANGED flags
 Next == AddFlag \/ Finish
 Spec == Init /\ [][Next]_ovars
@@ -54,6 +58,8 @@ OrderLaws ==
                 < flags[CHOOSE i \in DOMAIN flags : flags[i].c = o[k + 1].c].pos
 Export == Done => PrintT("EXPORT " \o ToJson(
               [ flags |-> flags, twopl |-> twopl, stab |-> stab,
+                names |-> [flags |-> names.flags,
+                           fixed |-> [o \in {"f", "na", "twopl", "stab"} |-> SolverOptName(o, names.fixed)]],
                 refused |-> Refused(flags, twopl, stab),
                 order |-> IF Refused(flags, twopl, stab) THEN <<>> ELSE OrderOf(flags) ]))
 =============================================================================
